@@ -201,7 +201,19 @@ func (db *MemDB) AwaitAttestation(ctx context.Context, slot uint64, commIdx uint
 	case <-ctx.Done():
 		return nil, ctx.Err()
 	case value := <-response:
-		return value, nil
+		// Clone before returning, the stored value is shared with all other readers.
+		clone := *value
+		if value.Source != nil {
+			source := *value.Source
+			clone.Source = &source
+		}
+
+		if value.Target != nil {
+			target := *value.Target
+			clone.Target = &target
+		}
+
+		return &clone, nil
 	}
 }
 
